@@ -133,7 +133,7 @@ def main(argv=None) -> int:
         n = sum(r["instances"] for r in ctx.rules.values())
         st = ""
         if selftest is not None:
-            st = f", self-test {selftest['breaking_detected']}/{selftest['breaking']} breaking detected, {selftest['benign_silent']}/{selftest['benign']} benign silent"
+            st = f", self-test {selftest['breaking_detected']}/{selftest['breaking']} breaking detected, {selftest['benign_silent']}/{selftest['benign']} benign silent, {len(selftest['skipped'])} skipped"
         print(f"OK property={pid} tier={args.tier} rule-instances={n} rules={len(ctx.rules)} functions={len(ctx.functions)}{st} wall={time.time()-t0:.2f}s")
         for m in ctx.infos[:12]:
             print(f"  INFO {m}")
